@@ -238,6 +238,17 @@ ShiftLattice ==
         /\ \A k \in 1..3 : /\ planes[i].s[k] \in {-1, 0, 1}
                            /\ (Act[k] = 0 \/ ~inp.per) => planes[i].s[k] = 0
 
+\* C10: every position handed to the exact predicate lies in the domain of the integer grid
+\* (boundary.rs:42-47: [lo - 1.5 W, lo + 2.5 W) per axis, [lo, lo + W] the initial box of the cell) - the
+\* generator, every candidate image, and the mirror images of the generator through the walls
+\* (HalfSpace::right_loc of a wall).  In doubled coordinates: 2x in [2 lo - 3 W, 2 lo + 5 W).
+InGridDomain(x) == \A k \in 1..3 : LET lo == BoxLoOf(inp)[k]  W == BoxHiOf(inp)[k] - BoxLoOf(inp)[k]
+                                    IN 2 * x[k] >= 2 * lo - 3 * W /\ 2 * x[k] < 2 * lo + 5 * W
+QueriesInDomain ==
+    /\ InGridDomain(Own)
+    /\ \A q \in Cands : InGridDomain(CandPos(q))
+    /\ \A w \in 1..6 : InGridDomain(Mirror(Own, w, BoxLoOf(inp), BoxHiOf(inp)))
+
 \* C08: nothing depends on the unused axes - every bisector normal vanishes there and every
 \* vertex sits on the slab walls +-1.
 LowDimPrism ==
